@@ -44,6 +44,8 @@ CLASS_VERSION = {'XPath1Parser': '1.0', 'XPath2Parser': '2.0', 'XPath30Parser': 
 DOC_XML = '<a x="1"><b>t</b><a/></a>'
 VARIABLES = {'x': 1, 'a': 'u'}
 HANG_SECONDS = 10
+HANG_LIMIT = 6      # after this many hangs (all workers together) the remaining cases are skipped: a hang
+                    # regression is reported from the first witnesses instead of costing 10 s per case
 PROCS = int(os.environ.get('C03_PROCS', '16'))
 
 ALL_FIELDS = {"tokens", "next_match", "token", "next_token"}
@@ -299,6 +301,17 @@ def _on_alarm(signum, frame):
 
 
 _W: dict = {}
+import multiprocessing as _mp   # noqa: E402
+_HANGS = _mp.get_context('fork').Value('i', 0)     # shared with the forked workers
+
+
+def _note_hang() -> None:
+    with _HANGS.get_lock():
+        _HANGS.value += 1
+
+
+def _too_many_hangs() -> bool:
+    return _HANGS.value >= HANG_LIMIT
 
 
 def _winit(legal_parse, legal_eval, limit=True):
@@ -389,7 +402,12 @@ class _Agg:
         self.samples: list = []
 
     def judge(self, version: str, text: str, origin: dict) -> str:
+        if _too_many_hangs():
+            self.stats['skipped_after_hangs'] += 1
+            return 'skipped'
         obs = run_text(version, text)
+        if any(o[2] is not None and o[2][0] == 'hang' for o in obs):
+            _note_hang()
         parsed = False
         pcode = None
         for phase, detail, shape, ident, fp in obs:
@@ -446,7 +464,7 @@ def seq_worker(job):
                 continue
             for v in VERSIONS:
                 out = agg.judge(v, text, dict(kind='tokens', seq=list(seq), layout=layout))
-                if layout == 'spaced' and gclass != 'open':
+                if layout == 'spaced' and gclass != 'open' and out != 'skipped':
                     vn = int(v.replace('.', ''))
                     if gclass == 'ill':
                         ok = out != 'value'
@@ -507,6 +525,7 @@ def _parse_outcome(parser, text):
             out = ('err', bool(code), str(code), None)
         except _Hang:
             out = ('hang', False, 'hang', {'exc': 'hang', 'where': None, 'sym': None})
+            _note_hang()
         except BaseException as e:   # noqa
             out = ('escaped', False, type(e).__name__, fingerprint(e))
     finally:
@@ -535,6 +554,9 @@ def history_worker(job):
         fresh[sc] = _parse_outcome(cls(), source_text(sc, version))
         stats['evaluations'] += 1
     for h in histories:
+        if _too_many_hangs():
+            stats['skipped_after_hangs'] += 1
+            continue
         insts: dict = {}
         events = []
         hist_desc = [[p, sc] for p, sc, _ in h]
@@ -621,6 +643,11 @@ def start_suite(chk) -> tuple:
     env['PYTHONPATH'] = core.REPO + os.pathsep + core.VERIF
     env.pop('PYTEST_ADDOPTS', None)
     cmd = [sys.executable, '-m', 'pytest', '-q', '-p', 'no:cacheprovider', '-p', 'engine.props.c03', 'tests']
+    try:
+        import pytest_timeout  # noqa: F401
+        cmd.insert(4, '--timeout=60')     # a hanging parse fails its test instead of blocking the run
+    except ImportError:
+        pass
     fh = open(log, 'w')
     p = subprocess.Popen(cmd, cwd=core.REPO, env=env, stdout=fh, stderr=subprocess.STDOUT)
     return p, out, log, fh
@@ -818,10 +845,11 @@ def run(chk: core.Check) -> None:
 
     # ---- 4. the recorded test-suite run -------------------------------------------------
     try:
-        suite_proc.wait(timeout=900)
+        suite_proc.wait(timeout=600)
     except subprocess.TimeoutExpired:
         suite_proc.kill()
-        raise tla.MachineryError('test-suite run under the recorder timed out')
+        suite_proc.wait()
+        chk.note('test-suite run under the recorder killed after 600 s; the events recorded so far are used')
     suite_fh.close()
     with open(suite_log) as fh:
         tail = fh.read().strip().splitlines()[-1:] or ['']
@@ -953,7 +981,9 @@ def run(chk: core.Check) -> None:
     chk.add('distinct_nontrivial', len(nontrivial))
     chk.add('evaluations', stats.get('evaluations', 0))
     chk.coverage['outcome_counts'] = {k: v for k, v in sorted(stats.items()) if k != 'evaluations'}
-    chk.coverage['exhaustive'] = True
+    chk.coverage['exhaustive'] = not stats.get('skipped_after_hangs')
+    if stats.get('skipped_after_hangs'):
+        chk.note(f"{_HANGS.value} calls hung; {stats['skipped_after_hangs']} remaining cases were skipped")
     chk.coverage['rule'] = (
         'cases: every state of the Tokens graph (all token sequences up to the bound, 2 layouts, 4 parser versions, '
         '3 contexts x evaluate/get_results), every TLC-chosen one-token mutation of the harvested suite expressions, '
